@@ -29,6 +29,7 @@ class Variant:
     note: str = ""
     prop: str = ""
     diff: str = ""  # name of a unified diff under corpus/twins applied instead of `edits`
+    rename: tuple = ()  # (old identifier, new identifier): whole-word rename in every file
 
 
 @lru_cache(maxsize=1)
@@ -104,6 +105,20 @@ def apply_unified_diff(src: dict, text: str, name: str = "") -> None:
 
 def apply(v: Variant) -> dict:
     src = base_sources()
+    if v.rename:
+        import re
+
+        old, new = v.rename
+        pat = re.compile(r"(?<![A-Za-z0-9_])" + re.escape(old) + r"(?![A-Za-z0-9_])")
+        n = 0
+        for path in list(src):
+            if path.endswith(".py"):
+                src[path], k = pat.subn(new, src[path])
+                n += k
+                ast.parse(src[path])
+        if n < 1:
+            raise ValueError(f"variant {v.vid}: identifier {old} occurs {n} times")
+        return src
     if v.diff:
         with open(os.path.join(TWINS, v.diff)) as fh:
             apply_unified_diff(src, fh.read(), v.diff)
@@ -125,6 +140,23 @@ def apply(v: Variant) -> dict:
 
 _REG: dict[str, list[Variant]] = {}
 
+_INTERFACE_NAMES = {"_yaml_repr", "_match_instances", "_approximate_instances", "_register_permanently"}
+
+
+@lru_cache(maxsize=1)
+def private_function_names() -> list:
+    """Private (underscore) functions and methods of the base corpus that are defined once:
+    the names a maintainer may rename freely."""
+    import re
+
+    count: dict[str, int] = {}
+    for path, text in _base().items():
+        if path.endswith(".py"):
+            for m in re.finditer(r"^\s*def (_[A-Za-z0-9_]*[A-Za-z0-9])\(", text, re.M):
+                if not (m.group(1).startswith("__") and m.group(1).endswith("__")):
+                    count[m.group(1)] = count.get(m.group(1), 0) + 1
+    return sorted(n for n, c in count.items() if c == 1 and n not in _INTERFACE_NAMES and not n.endswith("__"))
+
 
 def for_property(prop: str) -> list[Variant]:
     if prop not in _REG:
@@ -140,6 +172,10 @@ def for_property(prop: str) -> list[Variant]:
             for fn in sorted(os.listdir(TWINS)):
                 if fn.endswith(".diff"):
                     vs.append(Variant(f"{prop}-x-{fn[:-5]}", "", "twin", [], diff=fn, note="independent refactoring"))
+        # renaming any private helper everywhere keeps behaviour: rules must find their anchors
+        for name in private_function_names():
+            new = name + "_impl" if not name.startswith("__") else name + "_impl"
+            vs.append(Variant(f"{prop}-r-{name.strip('_')}", "", "twin", [], rename=(name, new), note="private helper renamed"))
         for v in vs:
             v.prop = prop
         ids = [v.vid for v in vs]
